@@ -116,7 +116,7 @@ def run_case(case):
     n_steps = case.get("steps", 14)
     rtfs = [0, 0, 0, 5, 20, 50]
     items, counters, samples = [], Counter(), []
-    owners = [n["name"] for n in spec["nodes"]] + [f"{c['out']}/{c['inp']}" for c in spec["conns"]]
+    owners = [n["name"] for n in spec["nodes"]] + [f"{c['inp']}/{c['out']}" for c in spec["conns"]]
     variants = [
         dict(name="baseline", api="run"),
         dict(name="pauses", api="run", p_sleep=0.3),
